@@ -118,7 +118,10 @@ def sample(cases, n, salt=""):
     return [cases[i] for i in idx]
 
 
-def run_jobs(jobs, threads=12, name="jobs", timeout=3600):
+TESTS_CWD = os.path.join(REPO, "bindgen-tests")
+
+
+def run_jobs(jobs, threads=12, name="jobs", timeout=3600, cwd=None):
     """Run generation jobs through `bvdrive run`; returns {id: result}."""
     d = workdir(name, clean=False)
     jf = os.path.join(d, "jobs.json")
@@ -128,7 +131,7 @@ def run_jobs(jobs, threads=12, name="jobs", timeout=3600):
     env.pop("BINDGEN_VERIF_LOG", None)
     try:
         p = subprocess.run([BVDRIVE, "run", jf], stdout=subprocess.PIPE, stderr=subprocess.PIPE,
-                           text=True, timeout=timeout, env=env, cwd=d)
+                           text=True, timeout=timeout, env=env, cwd=cwd or TESTS_CWD)
     except subprocess.TimeoutExpired:
         raise ToolError("bvdrive run timed out")
     res = {}
@@ -144,6 +147,42 @@ def run_jobs(jobs, threads=12, name="jobs", timeout=3600):
             res.setdefault(j["id"], {"id": j["id"], "outcome": "crash:%d" % p.returncode,
                                      "msg": p.stderr[-2000:], "ms": 0})
     return res
+
+
+def run_cases_logged(cases, name, detail=0, schedule=None, threads=12, extra_args=(), write=False):
+    """Run cases (dicts with id/args/callbacks) with a per-case hook log and bindings output.
+    Returns (dir, {id: result}); logs are <dir>/<id>.ndjson, outputs <dir>/<id>.rs."""
+    d = workdir(name)
+    jobs = []
+    for c in cases:
+        jobs.append({"id": c["id"], "args": list(c["args"]) + list(extra_args),
+                     "callbacks": c.get("callbacks"),
+                     "log": os.path.join(d, c["id"] + ".ndjson"), "detail": detail,
+                     "schedule": c.get("schedule", schedule), "write": write,
+                     "out": os.path.join(d, c["id"] + ".rs")})
+    res = run_jobs(jobs, threads=threads, name=name, cwd=cases[0].get("cwd") if cases else None)
+    return d, res
+
+
+def build_trace(d, ids, events, out, prefix=""):
+    """Concatenate the hook logs of `ids` (in order), keeping only `events`."""
+    n = 0
+    with open(out, "a") as o:
+        for i in ids:
+            p = os.path.join(d, i + ".ndjson")
+            if not os.path.exists(p):
+                continue
+            with open(p) as f:
+                for line in f:
+                    if not line.startswith('{"ev":"'):
+                        continue
+                    ev = line[7:line.index('"', 7)]
+                    if ev in events:
+                        if prefix and ev == "reset":
+                            line = line.replace('"case":"', '"case":"' + prefix, 1)
+                        o.write(line)
+                        n += 1
+    return n
 
 
 def inventory(paths):
